@@ -16,6 +16,7 @@ import (
 
 	"github.com/enbility/spine-go/api"
 	"github.com/enbility/spine-go/model"
+	"github.com/enbility/spine-go/spine"
 	"pgregory.net/rapid"
 
 	"verifharness/world"
@@ -59,6 +60,8 @@ const (
 	opHas          = "has"
 	opRemoveEntity = "remove-entity"
 	opAddEntity    = "add-entity"
+	opNewEntity    = "new-entity"    // created (use cases can be declared) but not handed to the device yet
+	opAttachEntity = "attach-entity" // device.AddEntity of such an entity
 )
 
 // op is one application call. Ent/Actor/Name are indices into the domain tables.
@@ -97,6 +100,10 @@ func (o op) String() string {
 		return fmt.Sprintf("device.RemoveEntity(%s)", e)
 	case opAddEntity:
 		return fmt.Sprintf("device.AddEntity(new %s)", e)
+	case opNewEntity:
+		return fmt.Sprintf("NewEntityLocal(%s), not added to the device yet", e)
+	case opAttachEntity:
+		return fmt.Sprintf("device.AddEntity(%s)", e)
 	}
 	return o.Kind
 }
@@ -239,7 +246,7 @@ func (r registry) apply(o op) string {
 		return fxRemoveAllNop
 	case opHas:
 		return fxHas
-	case opAddEntity:
+	case opAddEntity, opNewEntity, opAttachEntity:
 		return fxAddEntity
 	}
 	panic("harness: unknown op " + o.Kind)
@@ -468,6 +475,8 @@ type machine struct {
 	peer  *world.Peer
 	ents  [seqEntities]api.EntityLocalInterface
 	alive [seqEntities]bool
+	// created with NewEntityLocal and not yet handed to the device: its use cases are declared all the same
+	detached [seqEntities]bool
 	reg   registry
 
 	hist    []string // the history written out
@@ -514,6 +523,12 @@ func (m *machine) step(o op) (has bool) {
 	case opAddEntity:
 		m.ents[o.Ent] = m.w.AddLocalEntity(entityAddrs[o.Ent], entityTypes[o.Ent], time.Second)
 		m.alive[o.Ent] = true
+	case opNewEntity:
+		m.ents[o.Ent] = spine.NewEntityLocal(m.w.Local, entityTypes[o.Ent], spine.NewAddressEntityType(entityAddrs[o.Ent]), time.Second)
+		m.alive[o.Ent], m.detached[o.Ent] = true, true
+	case opAttachEntity:
+		m.w.Local.AddEntity(m.ents[o.Ent])
+		m.detached[o.Ent] = false
 	default:
 		has = run(m.ents[o.Ent], o)
 	}
@@ -611,7 +626,23 @@ func TestUseCaseRegistry(t *testing.T) {
 			if len(dead) == 0 {
 				t.Skip("all entities exist")
 			}
-			m.step(op{Kind: opAddEntity, Ent: rapid.SampledFrom(dead).Draw(t, "entity")})
+			kind := opAddEntity
+			if rapid.IntRange(0, 2).Draw(t, "notAddedYet") == 0 {
+				kind = opNewEntity
+			}
+			m.step(op{Kind: kind, Ent: rapid.SampledFrom(dead).Draw(t, "entity")})
+		}
+		attachEntity := func(t *rapid.T) {
+			var cands []int
+			for i := range m.detached {
+				if m.detached[i] {
+					cands = append(cands, i)
+				}
+			}
+			if len(cands) == 0 {
+				t.Skip("every entity is part of the device")
+			}
+			m.step(op{Kind: opAttachEntity, Ent: rapid.SampledFrom(cands).Draw(t, "entity")})
 		}
 		add := func(t *rapid.T) {
 			if len(m.aliveSlots()) == 0 {
@@ -672,9 +703,14 @@ func TestUseCaseRegistry(t *testing.T) {
 				m.step(op{Kind: opRemoveAll, Ent: m.drawAlive(t)})
 			},
 			"RemoveEntity": func(t *rapid.T) {
-				m.step(op{Kind: opRemoveEntity, Ent: m.drawAlive(t)})
+				e := m.drawAlive(t)
+				if m.detached[e] {
+					t.Skip("not part of the device")
+				}
+				m.step(op{Kind: opRemoveEntity, Ent: e})
 			},
-			"AddEntity": addEntity,
+			"AddEntity":    addEntity,
+			"AttachEntity": attachEntity,
 		})
 	}))
 }
